@@ -1,6 +1,7 @@
 package main
 
 import (
+	"context"
 	"encoding/json"
 	"flag"
 	"fmt"
@@ -406,18 +407,21 @@ func cmdCheck(args []string) int {
 					} else {
 						// path by path: on one concrete path all state merges collapse
 						j.fr.mu.Lock()
-						paths := j.fr.vc.pathSplits(ob, 96)
+						paths := j.fr.vc.pathSplits(ob, 400)
 						j.fr.mu.Unlock()
 						decided := false
 						if len(paths) > 0 {
 							allUnsat := true
 							tsum := 0.0
-							for _, lits := range paths {
-								var extra strings.Builder
-								for _, l := range lits {
-									extra.WriteString("(assert " + l + ")\n")
+							for _, pi := range paths {
+								j.fr.mu.Lock()
+								pq := j.fr.vc.pathQuery(ob, pi)
+								j.fr.mu.Unlock()
+								lits := pi.lits
+								if dumpRe != nil && dumpRe.MatchString(ob.Name) {
+									os.WriteFile(filepath.Join("smtdump", sanitize(ob.Name)+fmt.Sprintf(".path%d.smt2", len(all))), []byte(pq+"(check-sat)\n"), 0o644)
 								}
-								pr, pall := solve(insertBeforeGoal(qy, extra.String()), j.fr.vc.inputs, to, false)
+								pr, pall := solve(pq, j.fr.vc.inputs, to, false)
 								tsum += pr.Time
 								all = append(all, pall...)
 								if pr.Status == "sat" {
@@ -426,6 +430,9 @@ func cmdCheck(args []string) int {
 								}
 								if pr.Status != "unsat" {
 									allUnsat = false
+									if os.Getenv("GOVC_DEBUG") != "" {
+										fmt.Fprintf(os.Stderr, "path-split %s: %d paths, path failed (%s): %v\n", ob.Name, len(paths), pr.Status, lits)
+									}
 									break
 								}
 							}
@@ -438,6 +445,14 @@ func cmdCheck(args []string) int {
 							var all2 []SolverResult
 							r, all2 = solve(qy, j.fr.vc.inputs, to, *tier == "thorough")
 							all = append(all, all2...)
+						}
+						if r.Status != "unsat" && r.Status != "sat" {
+							// any subset of the assumptions is sound: drop one quantified
+							// assumption at a time (E-matching interference is the usual culprit)
+							if dr, ok := dropOneQuantified(qy, 5); ok {
+								r = dr
+								all = append(all, dr)
+							}
 						}
 					}
 				}
@@ -554,4 +569,56 @@ func insertBeforeGoal(q, extra string) string {
 		return q + extra
 	}
 	return q[:i+1] + extra + q[i+1:]
+}
+
+// dropOneQuantified tries the query with each quantified assumption removed in
+// turn (in parallel); the first unsat wins.
+func dropOneQuantified(q string, timeoutS int) (SolverResult, bool) {
+	lines := strings.Split(q, "\n")
+	var idx []int
+	last := len(lines) - 1
+	for last >= 0 && !strings.HasPrefix(lines[last], "(assert") {
+		last--
+	}
+	for i, l := range lines {
+		if i != last && strings.HasPrefix(l, "(assert") && strings.Contains(l, "(forall ") {
+			idx = append(idx, i)
+		}
+	}
+	if len(idx) == 0 || len(idx) > 60 {
+		return SolverResult{}, false
+	}
+	ctx, cancel := context.WithCancel(context.Background())
+	defer cancel()
+	ch := make(chan SolverResult, len(idx))
+	sem := make(chan struct{}, 6)
+	for _, di := range idx {
+		di := di
+		go func() {
+			sem <- struct{}{}
+			defer func() { <-sem }()
+			if ctx.Err() != nil {
+				ch <- SolverResult{Status: "cancelled"}
+				return
+			}
+			var b strings.Builder
+			for i, l := range lines {
+				if i == di {
+					continue
+				}
+				b.WriteString(l)
+				b.WriteByte('\n')
+			}
+			r := runSolverCtx(ctx, solvers[0], b.String()+"(check-sat)\n", timeoutS)
+			r.Solver = "z3-new(drop-one)"
+			ch <- r
+		}()
+	}
+	for range idx {
+		r := <-ch
+		if r.Status == "unsat" {
+			return r, true
+		}
+	}
+	return SolverResult{}, false
 }
